@@ -12,6 +12,7 @@ import PV.Driver.HashX
 import PV.Driver.RWLock
 import PV.Driver.UThread
 import PV.Driver.Socket
+import PV.Driver.Res
 def main (args : List String) : IO UInt32 := do
   match args with
   | ["ht"] => PV.Driver.HT.run; return 0
@@ -29,4 +30,5 @@ def main (args : List String) : IO UInt32 := do
   | ["rwlock-posix"] => PV.Driver.RWLock.runPosix; return 0
   | ["uthread"] => PV.Driver.UThread.run; return 0
   | ["socket"] => PV.Driver.Socket.run; return 0
+  | ["res"] => PV.Driver.ResD.run; return 0
   | _ => IO.eprintln "usage: pvdriver <family>  (ops on stdin)"; return 2
